@@ -41,6 +41,11 @@ def has_process(cls):
     return z3.And(HAS_ATTR(cls, S('process')), IS_CALLABLE(process_of(cls)))
 
 
+def VALID(cls):
+    """what validate_node establishes about a class it accepts (the part later steps rely on)"""
+    return z3.And(ISCLASS(cls), IN_MRO(cls, S('NodeBase')), has_process(cls))
+
+
 class DeclContract(Contract):
     props = ('C16',)
     path = BUILDER_PY
@@ -115,6 +120,9 @@ class CheckAnnotations(DeclContract):
 
     def requires(self, it, pre, a):
         return [('has-callable-process (checked by the caller\'s earlier steps)', True)]
+
+    def ensures(self, it, pre, post, a, res):
+        return [('accepted-only-with-a-callable-process', has_process(T(a.obj, it.st)))]
 
     def raises(self, it, pre, a):
         return [ExcCase('no-callable-process', 'RunMethodExpectedError', may=True),
@@ -460,6 +468,9 @@ class ValidateNode(DeclContract):
                 ExcCase('no-node-base', 'IncorrectBaseClass', when=z3.And(ISCLASS(n), z3.Not(IN_MRO(n, S('NodeBase'))))),
                 ExcCase('annotation-defect-or-no-process', None, may=True)]
 
+    def ensures(self, it, pre, post, a, res):
+        return [('an-accepted-node-is-a-node-class-with-a-callable-process', VALID(T(a.node, it.st)))]
+
     def effects_spec(self, it, pre, post, a, outcome, value, effects):
         b, c = calls(effects, '_check_base_class'), calls(effects, '_check_annotations')
         out = [('base-class-checked-first', len(b) == 1 and same_value(b[0].a.node, a.node, it.st) is not False)]
@@ -519,10 +530,7 @@ class IsExecutorNeeded(DeclContract):
         return new_builder(it), CallArgs()
 
     def requires(self, it, pre, a):
-        nm = it_map(it, pre, pre.getf(a.self, '_node_map'))
-        k = z3.Const('ek', PyV)
-        return [('assumed:worklist-closure (C15.c, not discharged): every mapped class went through validate_node', FA([k], z3.Implies(nm.has(k), z3.And(
-            nm.at(k) != NONE, has_process(nm.at(k)))), patterns=[nm.has(k)]))]
+        return [('every-mapped-class-went-through-validate_node', all_mapped_valid(it, pre, a.self))]
 
     def raises(self, it, pre, a):
         return [ExcCase('constructor-raised', None, may=True)]
@@ -591,9 +599,9 @@ class ValidateRecurrentParams(DeclContract):
         rp = pre.getf(pre.getf(a.self, '_recurrent_sub_graphs'), 'items')
         nm = it_map(it, pre, pre.getf(a.self, '_node_map'))
         i = z3.Int('vq')
-        return [('assumed:validity: recurrent start nodes are reachable from the output, hence mapped and validated', FA([i], z3.Implies(
-            z3.And(i >= 0, i < rp.len), z3.And(nm.has(PyV.t0(rp.at(i))), nm.at(PyV.t0(rp.at(i))) != NONE,
-                                               has_process(nm.at(PyV.t0(rp.at(i)))))), patterns=[rp.at(i)]))]
+        return [('assumed:validity: recurrent start nodes are reachable from the output, hence mapped', FA([i], z3.Implies(
+            z3.And(i >= 0, i < rp.len), nm.has(PyV.t0(rp.at(i)))), patterns=[rp.at(i)])),
+                ('every-mapped-class-went-through-validate_node', all_mapped_valid(it, pre, a.self))]
 
     def raises(self, it, pre, a):
         return [ExcCase('start-node-without-additional_data', 'IncorrectParamsRecurrentNode', may=True),
@@ -645,7 +653,10 @@ class Build(DeclContract):
         return [('declared-names-and-types-are-strings', decls_wellformed()),
                 ('validity: get_node_id is injective on the declared classes', FA([c1, c2], z3.Implies(
                     NODE_ID(c1) == NODE_ID(c2), c1 == c2), patterns=[z3.MultiPattern(NODE_ID(c1), NODE_ID(c2))])),
-                ('a-fresh-builder (no recurrent pairs recorded yet)', rec_dests_mapped(it, pre, a.self))]
+                ('a-fresh-builder (no recurrent pairs recorded yet)', rec_dests_mapped(it, pre, a.self)),
+                ('a-fresh-builder (nothing mapped yet)', nothing_mapped(it, pre, a.self)),
+                ('assumed:validity: the input node is a node class with a callable process (the traversal validates it only when '
+                 'it reaches it: always, unless the declarations are cyclic)', VALID(T(a.input_node, it.st)))]
 
     def raises(self, it, pre, a):
         return [ExcCase('declaration-rejected-or-user-constructor-failed', None, may=True)]
@@ -716,6 +727,36 @@ def rec_dests_mapped(it, snap, b):
         PyV.is_tup2(rp.at(i)), nm.has(PyV.t1(rp.at(i))), nm.at(PyV.t1(rp.at(i))) != NONE)), patterns=[rp.at(i)])
 
 
+def mapped_since_are_valid(it, pre, post, b):
+    """every entry of the node map is either the entry it was before, or a validated class"""
+    nm0 = it_map(it, pre, pre.getf(b, '_node_map'))
+    nm1 = it_map(it, post, post.getf(b, '_node_map'))
+    k = z3.Const('msk', PyV)
+    return FA([k], z3.Implies(nm1.has(k), z3.Or(z3.And(nm0.has(k), nm1.at(k) == nm0.at(k)), VALID(nm1.at(k)))),
+              patterns=[nm1.has(k)])
+
+
+def mapped_since_have_nodes(it, pre, post, b):
+    nm0 = it_map(it, pre, pre.getf(b, '_node_map'))
+    nm1 = it_map(it, post, post.getf(b, '_node_map'))
+    g = graph_view(post, b)
+    k = z3.Const('mnk', PyV)
+    return FA([k], z3.Implies(nm1.has(k), z3.Or(z3.And(nm0.has(k), nm1.at(k) == nm0.at(k)), g.node(NODE_ID(nm1.at(k))))),
+              patterns=[nm1.has(k)])
+
+
+def nothing_mapped(it, snap, b):
+    nm = it_map(it, snap, snap.getf(b, '_node_map'))
+    k = z3.Const('nmk', PyV)
+    return FA([k], z3.Not(nm.has(k)), patterns=[nm.has(k)])
+
+
+def all_mapped_valid(it, snap, b):
+    nm = it_map(it, snap, snap.getf(b, '_node_map'))
+    k = z3.Const('amk', PyV)
+    return FA([k], z3.Implies(nm.has(k), VALID(nm.at(k))), patterns=[nm.has(k)])
+
+
 def add_edges(effs):
     return [e for e in effs if e.kind == 'add_edge']
 
@@ -759,7 +800,10 @@ class Traverse(DeclContract):
                                      (pre.getf(b, '_synthetic_nodes'), 'items')]
 
     def ensures(self, it, pre, post, a, res):
-        return [('recorded-recurrent-destinations-are-mapped', rec_dests_mapped(it, post, a.self))]
+        return [('recorded-recurrent-destinations-are-mapped', rec_dests_mapped(it, post, a.self)),
+                ('every-class-mapped-by-the-traversal-was-validated|C16,C17', mapped_since_are_valid(it, pre, post, a.self)),
+                ('every-class-mapped-by-the-traversal-has-its-graph-node|C15', mapped_since_have_nodes(it, pre, post, a.self)),
+                ('the-output-has-its-graph-node|C15', graph_view(post, a.self).node(NODE_ID(T(a.output_node, it.st))))]
 
     def effects_spec(self, it, pre, post, a, outcome, value, effects):
         if outcome != 'raise':
@@ -781,8 +825,40 @@ class Traverse(DeclContract):
                 locs.append((v, 'elems' if v.cls == 'set' else 'items'))
         return locs
 
+    def _closure_inv(self, ctx):
+        """C15.c, the work-list closure: whatever the traversal maps is scheduled, whatever is scheduled is either validated
+        already or still on the work list, and the work list holds only scheduled classes.  With an empty work list at the
+        exit this gives the postcondition `every-class-mapped-by-the-traversal-was-validated`."""
+        it, st = ctx.it, ctx.it.st
+        items = st.getf(ctx.var('stack'), 'items')
+        if not hasattr(items, 'count'):
+            raise Unsupported('the work list of the traversal is not a collections.deque (no multiplicity view of it)')
+        vis = st.getf(ctx.var('visited'), 'elems')
+        if isinstance(vis, frozenset):
+            vis = it.models.symset_of(it, vis)
+        now = ctx.now()
+        nm = it_map(it, now, now.getf(ctx.a.self, '_node_map'))
+        nm0 = it_map(it, ctx.pre, ctx.pre.getf(ctx.a.self, '_node_map'))
+        x, k = z3.Const('wlx', PyV), z3.Const('wlk', PyV)
+        g = graph_view(now, ctx.a.self)
+        out_cls = T(ctx.a.output_node, st)
+        # C15 "one node per declared class reachable from the output": a class is scheduled right after an edge from it
+        # (or its node) was added -- all but the output itself, which gets its node while it is processed
+        being_processed = [T(ctx.var('current_node'), st) == out_cls] if ctx.spec.name != 'stack' else []
+        nodes = [('every-scheduled-class-but-the-output-has-its-graph-node|C15', FA([x], z3.Implies(
+                      vis.contains(x), z3.Or(x == out_cls, g.node(NODE_ID(x)))), patterns=[vis.contains(x)])),
+                 ('the-output-has-its-graph-node-once-it-was-processed|C15', z3.Or(
+                      items.count(out_cls) > 0, g.node(NODE_ID(out_cls)), *being_processed))]
+        return nodes + [('every-scheduled-class-is-validated-or-still-on-the-work-list|C16', FA([x], z3.Implies(
+                    vis.contains(x), z3.Or(VALID(x), items.count(x) > 0)), patterns=[vis.contains(x)])),
+                ('the-work-list-holds-only-scheduled-classes|C16', FA([x], z3.Implies(items.count(x) > 0, vis.contains(x)),
+                                                                       patterns=[items.count(x)])),
+                ('every-class-mapped-by-the-traversal-is-scheduled|C16', FA([k], z3.Implies(nm.has(k), z3.Or(
+                    z3.And(nm0.has(k), nm.at(k) == nm0.at(k)), vis.contains(nm.at(k)))), patterns=[nm.has(k)]))]
+
     def _base_inv(self, ctx):
         out = [('recorded-recurrent-destinations-are-mapped', rec_dests_mapped(ctx.it, ctx.now(), ctx.a.self))]
+        out += self._closure_inv(ctx)
         key = f'visited0:{ctx.spec.name}'
         v0 = ctx.st.ghost.get(key)
         if v0 is not None:
@@ -792,6 +868,11 @@ class Traverse(DeclContract):
                 cur = ctx.it.models.symset_of(ctx.it, cur)
             out.append(('scheduled-classes-stay-scheduled', FA([x], z3.Implies(v0.contains(x), cur.contains(x)),
                                                                 patterns=[v0.contains(x), cur.contains(x)])))
+        g0 = ctx.st.ghost.get(f'graph0:{ctx.spec.name}')
+        if g0 is not None:
+            n = z3.Const('gmn', PyV)
+            g = graph_view(ctx.now(), ctx.a.self)
+            out.append(('graph-nodes-are-only-added|C15', FA([n], z3.Implies(g0.node(n), g.node(n)), patterns=[g0.node(n)])))
         return out
 
     def _remember_visited(self, name):
@@ -801,6 +882,7 @@ class Traverse(DeclContract):
             if isinstance(e, frozenset):
                 e = it.models.symset_of(it, e)
             it.st.ghost[f'visited0:{name}'] = e
+            it.st.ghost[f'graph0:{name}'] = graph_view(it.st.snapshot(), it.entry_args.self)
         return ghost_init
 
     @property
@@ -831,6 +913,8 @@ class Traverse(DeclContract):
                     out.append(('the-input-node-is-scheduled|C15,C16', visited_has(it, ctx.var('visited'), inp)))
                 elif not any(e.kind == 'loop_summary' for e in effs):
                     out.append(('a-node-without-marks-gets-the-implicit-input-link|C15', z3.Or(lst.len != 0, inp == cur)))
+                out.append(('the-class-just-processed-has-its-graph-node|C15',
+                            graph_view(ctx.now(), a.self).node(NODE_ID(cur))))
             return out
 
         w = LoopSpec(text='stack', heap_havoc=outer._havoc_locs, inv=outer._base_inv, body_post=while_body)
@@ -854,7 +938,8 @@ class Traverse(DeclContract):
                 z3.And(j >= 0, j < ctx.i, MARK_KIND(mark_j) == 1),
                 z3.And(g.edge(src_j, NODE_ID(cur)), g.kw(src_j, NODE_ID(cur)) == name_j)), patterns=[seq.at(j)])
             return outer._base_inv(ctx) + [
-                ('earlier-Input-parameters-still-have-their-own-dependency|C15', kept)]
+                ('earlier-Input-parameters-still-have-their-own-dependency|C15', kept),
+                ('after-its-first-dependency-the-class-has-its-graph-node|C15', z3.Implies(ctx.i > 0, g.node(NODE_ID(cur))))]
 
         def marks_body(ctx):
             it, st, a = ctx.it, ctx.st, ctx.a
